@@ -64,7 +64,7 @@ type c20ForeignCtx struct {
 
 func (f *c20ForeignCtx) Done() <-chan struct{} { return f.done }
 
-var c20Endings = []string{"Close", "CloseNow", "peer-close-then-Close", "protocol-error-then-CloseNow", "ctx-expiry-then-Close", "cut-eof-then-Close", "cut-err-then-CloseNow", "silent-peer-Close", "peer-close-then-CloseNow", "closeread-data-then-Close", "closeread-partial-data-stall-then-CloseNow", "closeread-partial-data-stall-then-Close", "write-error-then-CloseNow", "write-error-then-Close", "Close-unsendable-code", "Close-oversize-reason", "Close-and-CloseNow-together-peer-slow-and-silent", "closeread-data-behind-a-stalled-write-then-CloseNow", "closeread-data-silent-peer-ping-during-handshake-then-CloseNow"}
+var c20Endings = []string{"Close", "CloseNow", "peer-close-then-Close", "protocol-error-then-CloseNow", "ctx-expiry-then-Close", "cut-eof-then-Close", "cut-err-then-CloseNow", "silent-peer-Close", "peer-close-then-CloseNow", "closeread-data-then-Close", "closeread-partial-data-stall-then-CloseNow", "closeread-partial-data-stall-then-Close", "write-error-then-CloseNow", "write-error-then-Close", "Close-unsendable-code", "Close-oversize-reason", "Close-and-CloseNow-together-peer-slow-and-silent", "closeread-data-behind-a-stalled-write-then-CloseNow", "closeread-data-silent-peer-ping-during-handshake-then-CloseNow", "closeread-data-peer-window-closed-then-CloseNow"}
 
 func runC20(r *Run) {
 	t := r.Tape
@@ -96,7 +96,7 @@ func runC20(r *Run) {
 		if p.closeRead {
 			p.abReader, p.netconn = false, false
 		}
-		if p.ending >= 9 && p.ending <= 11 || p.ending == 17 || p.ending == 18 {
+		if p.ending >= 9 && p.ending <= 11 || p.ending >= 17 {
 			p.closeRead, p.abReader, p.netconn = true, false, false
 		}
 		if p.ending == 17 {
@@ -185,7 +185,7 @@ func runC20(r *Run) {
 			}
 			openLib += mine
 			// cooperative raw peer: answers pings, echoes Close
-			peerEcho := p.ending != 7 && p.ending != 16 && p.ending != 18
+			peerEcho := p.ending != 7 && p.ending != 16 && p.ending != 18 && p.ending != 19
 			r.S.Go(who+".peer", func() {
 				seen := 0
 				for {
@@ -380,6 +380,20 @@ func runC20(r *Run) {
 			r.S.Sleep(5 * time.Second)
 			cerr = c.CloseNow()
 			r.S.Count("probe.ping-during-closeread-handshake")
+		case 19:
+			// The peer sends a data message and takes nothing more: CloseRead's own
+			// Close frame (1008) cannot even leave the write buffer. Its write must
+			// time out and close the connection; CloseNow must leave nothing behind.
+			held19 := true
+			peer.Hold = func() bool { return held19 }
+			rc.Lib.Out().Cap = rc.Lib.Out().Buffered()
+			rc.Lib.Out().HardCap = true
+			peer.Inject(peer.Encode(wsref.Frame{Fin: true, Opcode: wsref.OpText, Payload: []byte("unexpected data")}))
+			r.S.Sleep(7 * time.Second)
+			cerr = c.CloseNow()
+			held19 = false
+			r.S.Kick()
+			r.S.Count("probe.closeread-close-frame-against-a-closed-window")
 		case 16:
 			if p.pair {
 				cerr = c.Close(websocket.StatusNormalClosure, "done")
